@@ -19,7 +19,7 @@ def plans(tier):
 
 def sweeps(chk, sd, binp):
     import dist_common
-    dist_common.run(chk, sd, chk.tier, ['jump', 'addr'], {"C06"})
+    dist_common.run(chk, sd, chk.tier, ['jump', 'addr', 'affconc'], {"C06"})
 
 
 def run(tier):
